@@ -200,7 +200,7 @@ def hint_tags(unit_name):
     pass
 
 if __name__ == "__main__":
-    r = run_unit(sys.argv[1])
+    r = run_unit(sys.argv[1], rlimit=(60 if sys.argv[1] == "speclib" else 30))
     print(r["status"], "verified", r["verified"], "errors", r["errors"], "wall %.1fs" % r["wall_s"], "smt %sms" % r["smt_ms"])
     for n in r["notes"]: print("  note:", n)
     for f in r["failures"]:
